@@ -1426,6 +1426,14 @@ fieldsOf := stateFieldsOf
 			if t, name, _, ok := fieldOf(x.X); ok && typeName(t) == "state" {
 				return []string{name}
 			}
+			// an element of a slice literal that is ranged over (`for _, obj := range []any{wr, rw, rd}`): each element in turn
+			if ia, ok := x.X.(*ssa.IndexAddr); ok {
+				var out []string
+				for _, el := range sliceLiteralElems(ia.X, 0) {
+					out = append(out, fieldsOf(el, depth+1)...)
+				}
+				return out
+			}
 		}
 	case *ssa.ChangeInterface:
 		return fieldsOf(x.X, depth+1)
@@ -1484,11 +1492,31 @@ func checkHandleObjectsClosedOnlyByClose(c *Ctx, rule string) {
 			if len(fs) == 0 {
 				return
 			}
-			n++
+			n += len(fs)
 			host := fnName(outermost(fn))
 			c.check(host == "(*Request).close" || host == "(*state).closeListerAt", rule, "close of the object in state."+fs[0]+" in "+fnName(fn), p.Pos(in.Pos()), "in Request.close / closeListerAt",
 				"the handler object held in a handle (state."+fs[0]+") is closed outside Request.close: requests pipelined on the same handle find it closed, and CLOSE or the end sweep closes it again")
 		})
 	}
-	c.check(n >= 4, rule, "close sites of handle objects", "?", fmt.Sprintf("%d sites", n), fmt.Sprintf("only %d close sites of handle objects found (Request.close closes three slots, closeListerAt the lister)", n))
+	c.check(n >= 4, rule, "close sites of handle objects", "?", fmt.Sprintf("%d slots closed", n), fmt.Sprintf("only %d slots of handle objects are closed anywhere (Request.close closes three, closeListerAt the lister)", n))
+}
+
+// sliceLiteralElems: the elements of the slice literal v is (directly, or as the result of a module function).
+func sliceLiteralElems(v ssa.Value, depth int) []ssa.Value {
+	if depth > 3 {
+		return nil
+	}
+	switch x := v.(type) {
+	case *ssa.Slice:
+		return variadicElems(x)
+	case *ssa.Call:
+		if callee := x.Call.StaticCallee(); callee != nil && callee.Blocks != nil && inModule(callee) {
+			var out []ssa.Value
+			for _, rl := range returnLeaves(callee, 0) {
+				out = append(out, sliceLiteralElems(rl.v, depth+1)...)
+			}
+			return out
+		}
+	}
+	return nil
 }
